@@ -206,7 +206,7 @@ def fresh_state_before(s, seq):
     return prior[-1].response if prior else s.original
 
 
-@harness('A3', targets='kopf._cogs.clients.patching.patch_obj', props=['C08', 'C06', 'C03'],
+@harness('A3', targets='kopf._cogs.clients.patching.patch_obj', props=['C08', 'C06', 'C03', 'C12', 'C13', 'C16', 'C02'],
          clauses=['addressing', 'merge_patches_complete', 'merge_before_json_and_stop_on_failure',
                   'ops_of_all_fns_on_freshest_body', 'ops_routed_completely', 'version_test_guards_ops',
                   'conflict_carries_all_fns', 'success_drops_fns', 'not_found_is_silent', 'other_failures_escape',
@@ -499,7 +499,7 @@ def A2(vc):
 DUMMY = ('metadata', 'annotations', 'kopf.zalando.org/touch-dummy')
 
 
-@harness('A1', targets='kopf._core.actions.application.apply', props=['C03', 'C08', 'C07'],
+@harness('A1', targets='kopf._core.actions.application.apply', props=['C03', 'C08', 'C07', 'C11'],
          clauses=['quiescent_iff_nothing_to_do', 'no_lost_retrigger', 'patched_means_no_sleep_no_touch',
                   'sleep_interruptible_and_not_longer_than_delay', 'touch_only_after_full_sleep', 'immediate_touch',
                   'touch_is_fresh_and_separate', 'returns_last_version_and_first_remaining', 'only_patching_errors_escape'],
